@@ -1,4 +1,4 @@
-import JunoModel.C05.ProofsFilter3
+import JunoModel.C05.ProofsFilter5
 /-!
 C05 — property theorems (statements only; proofs are in `Proofs*.lean`).
 
@@ -102,6 +102,28 @@ theorem memory_tracks_store (W : Nat) (hW : 0 < W) (c : List Block) (f : Filt) (
           ∀ x i, wstart W c.length ≤ x → x < wstart W c.length + W → bitIn (c ++ [b]) x i →
             w'.has x i = true)) :=
   insert_filtOK hW hf hb
+
+/-- A Store from a good node — the block the network offers next — completed, or cut short by a
+crash right after its commit: the node is good again, for the extended chain (so a restart builds
+the right filter and the block after it can be stored: `restart_ok_partial`,
+`next_block_storable_partial`). Every repair variant. -/
+theorem store_keeps_good (W : Nat) (hW : 0 < W) (fx : Fixes) (c : List Block) (n : Node) (b : Block)
+    (hg : Good W c n) (hn : NextBlock c n.disk b) (ft : Fault) (hft : ∀ k, ft ≠ .failAt k) :
+    Good W (c ++ [b]) (exec W fx n (.store b) ft).1 :=
+  store_good hW fx hg hn ft hft
+
+/-- `crash_consistent_without_reverts_partial`: every history over {store (any fresh block, also
+ones the node must refuse), set-L1-head, snapshot, graceful restart, kill} from the empty node,
+with a crash after ANY commit and a failure of ANY snapshot / L1-head write, ends in a good node:
+coherent image, exactly the complete windows persisted and sound, snapshot (if any) describing a
+prefix of the chain, memory filter lazy or exact. Hence after such a history a restart yields the
+right filter and the next block is stored. Partial: no RevertHead / prune in the history and no
+failed Store commit (those are where the unrepaired code breaks — witnesses below). -/
+theorem crash_consistent_without_reverts_partial (W : Nat) (hW : 0 < W) (fx : Fixes)
+    (hs : List (Op × Fault)) (hv : ValidHist W fx Node.init hs) (hnr : NoRevert hs)
+    (hnf : NoFailedChainCommit hs) :
+    ∃ c, Good W c (run W fx Node.init hs) :=
+  good_run_no_revert hW fx hs Node.init [] (good_init W hW) hv hnr hnf
 
 -- non-vacuity: the empty node is good for every window size
 example (W : Nat) (hW : 0 < W) : Good W [] Node.init := by
